@@ -487,6 +487,10 @@ _PM = "packages/llama-index-workflows/src/workflows/context/state_store.py"
 _PS = "packages/llama-agents-server/src/llama_agents/server/_store/sqlite/sqlite_state_store.py"
 _PF = "packages/llama-agents-server/src/llama_agents/server/_store/memory_workflow_store.py"
 
+_SET_STATE_NOW = '        async with self._lock:\n            current_state = self._load_state()\n            merged = merge_state(current_state, state)\n            self._save_state(merged)  # type: ignore[arg-type]\n'
+_SET_STATE_PRE_FIX = '        conn = self._connect()\n        try:\n            cursor = conn.cursor()\n            cursor.execute(\n                "SELECT state_json FROM workflow_state WHERE run_id = ?",\n                (self._run_id,),\n            )\n            row = cursor.fetchone()\n\n            if row is None:\n                self._save_state(state, conn)\n                conn.commit()\n                return\n\n            current_state = self._deserialize_state(row[0])\n            merged = merge_state(current_state, state)\n            self._save_state(merged, conn)  # type: ignore[arg-type]\n            conn.commit()\n        finally:\n            self._release(conn)\n'
+_LOCK_NOW = "        key = (self._db_path, self._run_id)\n        lock = _RUN_LOCKS.get(key)\n        if lock is None:\n            lock = _RUN_LOCKS[key] = asyncio.Lock()\n        return lock\n"
+
 TWINS = [
     # ---- R1 breaking
     Twin("memory set without the lock", _PM, "        async with self._lock:\n            set_by_path(self._state, path, value)", "        set_by_path(self._state, path, value)", "C20.R1"),
@@ -507,9 +511,12 @@ TWINS = [
          "        async with self._lock:\n            state = self._load_state()\n            set_by_path(state, path, value)\n            self._save_state(state)", None),
     Twin("benign: memory clear via type()", _PM, "        await self.set_state(create_cleared_state(self._state.__class__))",
          "        kind = type(self._state)\n        await self.set_state(create_cleared_state(kind))", None),
-    Twin("benign: sqlite set_state takes the lock (repair)", _PS, "        \"\"\"Replace or merge into the current state model.\"\"\"\n        conn = self._connect()\n        try:",
-         "        \"\"\"Replace or merge into the current state model.\"\"\"\n        async with self._lock:\n            self._set_state_locked(state)\n\n"
-         "    def _set_state_locked(self, state: MODEL_T) -> None:\n        conn = self._connect()\n        try:", None),
+    Twin("pre-fix: sqlite set_state reads and writes outside the lock", _PS, _SET_STATE_NOW, _SET_STATE_PRE_FIX, "C20.R1"),
+    Twin("sqlite set_state loads before taking the lock", _PS, "        async with self._lock:\n            current_state = self._load_state()\n            merged",
+         "        current_state = self._load_state()\n        async with self._lock:\n            merged", "C20.R1"),
+    Twin("benign: sqlite set_state body in a private helper under the lock", _PS, _SET_STATE_NOW,
+         "        async with self._lock:\n            self._set_state_locked(state)\n\n    def _set_state_locked(self, state: MODEL_T) -> None:\n"
+         "        current_state = self._load_state()\n        merged = merge_state(current_state, state)\n        self._save_state(merged)\n", None),
     # ---- R2 breaking
     Twin("memory factory loses its memo guard", _PF, "        if run_id not in self.state_stores:", "        if True:", "C20.R2"),
     Twin("memory factory returns a fresh wrapper around the shared state", _PF, "        return self.state_stores[run_id]",
@@ -517,7 +524,10 @@ TWINS = [
     # ---- R2 benign
     Twin("benign: memory factory guard via get() is None", _PF, "        if run_id not in self.state_stores:", "        if self.state_stores.get(run_id) is None:", None),
     Twin("benign: memory factory guard via local", _PF, "        if run_id not in self.state_stores:", "        missing = run_id not in self.state_stores\n        if missing:", None),
-    Twin("benign: sqlite lock from a per-run registry (repair)", _PS,
-         "    @functools.cached_property\n    def _lock(self) -> asyncio.Lock:\n        \"\"\"Lazy lock initialization for Python 3.14+ compatibility.\"\"\"\n        return asyncio.Lock()",
-         "    _LOCKS: dict = {}\n\n    @property\n    def _lock(self) -> asyncio.Lock:\n        return SqliteStateStore._LOCKS.setdefault((self._db_path, self._run_id), asyncio.Lock())", None),
+    Twin("pre-fix: sqlite lock created per store object", _PS, _LOCK_NOW, "        return asyncio.Lock()\n", "C20.R2"),
+    Twin("sqlite lock registry owned by the instance", _PS, _LOCK_NOW,
+         "        if not hasattr(self, \"_locks\"):\n            self._locks = {}\n        return self._locks.setdefault((self._db_path, self._run_id), asyncio.Lock())\n", "C20.R2"),
+    Twin("benign: sqlite lock registry through setdefault", _PS, _LOCK_NOW, "        return _RUN_LOCKS.setdefault((self._db_path, self._run_id), asyncio.Lock())\n", None),
+    Twin("benign: sqlite lock registry on the class", _PS, _LOCK_NOW,
+         "        return SqliteStateStore._LOCKS.setdefault((self._db_path, self._run_id), asyncio.Lock())\n\n    _LOCKS: dict = {}\n", None),
 ]
